@@ -30,7 +30,10 @@ ASSUMPTIONS = [
     "documented pruning respected: no depot->depot move while a customer is servable; empty SVRP routes only when the "
     "current technician can serve nobody",
     "continuous constraints met with equality (time-window end, distance limit, OP length with its documented 1e-6 "
-    "margin, MTVRP strict '<' on window ends) are don't-care inside a 1e-4 band",
+    "margin, MTVRP strict '<' on window ends) are don't-care inside a 1e-4 band - except CVRPTW arrivals that equal "
+    "the window end in exact integer arithmetic (integer leg lengths, departure times, window bounds: identical in "
+    "float32 and float64), which are asserted to be offered (the problem lets a service start when the window closes), and MTVRP routes whose "
+    "length equals the distance limit in exact dyadic arithmetic (lattice coordinates, pythagorean legs)",
     "FJSP/JSSP: with waiting allowed (mask_no_ops=False) the reachable optimum must equal the true optimum over "
     "semi-active schedules; with mask_no_ops=True (documented non-delay pruning) only 'not better than optimal' is asserted",
     "FFSP: the MatNet decision process (each machine in turn picks a waiting job; idling only while a job can still "
@@ -498,6 +501,12 @@ def execute(case, ctx):
     inst = ctx.guard(spec.instance, case, what=f"instance|{name}")
     tau = tau_for(case)
     exact = DISCRETE if case["src"] == "lat" else ()
+    if name == "cvrptw":
+        # arrivals that equal the window end in exact integer arithmetic (oracle-certified, see judge_cvrptw)
+        exact = set(exact) | {"time_window="}
+    if name == "mtvrp":
+        # route length equal to the distance limit in exact dyadic arithmetic (oracle-certified, see judge_mtvrp)
+        exact = set(exact) | {"distance_limit="}
     ctx.event(f"env:{name}")
     for b in range(inst.batch_size[0]):
         I = py_instance(name, inst[b])
@@ -590,6 +599,22 @@ def cases(tier):
         case = {"env": name, "cfg": cfg, "B": 1, "src": src, "seed": draw(st.integers(0, 2 ** 31 - 1))}
         if src == "lat":
             case["lat"] = draw(spec.lattice(cfg, 1, exact=True))
+            if name == "mtvrp" and case["lat"]["distance_limit"][0][0] < 1e29 and draw(st.booleans()):
+                # boundary construction: the limit equals the exact (dyadic) length of some route of 1-3 customers
+                locs = case["lat"]["locs"][0]
+                opn = case["lat"]["open_route"][0][0]
+                hyp = lambda a, b: math.hypot(locs[a][0] - locs[b][0], locs[a][1] - locs[b][1])
+                need = max(hyp(0, j) for j in range(1, len(locs))) * (1 if opn else 2)
+                opts = set()
+                for k in (1, 2, 3):
+                    for r in itertools.permutations(range(1, len(locs)), min(k, len(locs) - 1)):
+                        legs = [hyp(a, b) for a, b in zip((0,) + r, r + (() if opn else (0,)))]
+                        L = sum(legs)
+                        if all(float(d * 1024).is_integer() for d in legs) and L >= need:
+                            opts.add(L)
+                if opts:
+                    case["lat"]["distance_limit"][0][0] = draw(st.sampled_from(sorted(opts)))
+                    case["limit_on_route_length"] = True
         elif src == "tgt":
             case["lat"] = draw(spec.tight(cfg, 1))
         return case
